@@ -126,7 +126,11 @@ def build(base, hist):
             del _HANDLES[:100]
         d = FlowCal.io.FCSData(fh)
     else:
-        d = FlowCal.io.FCSData(base_path(base))
+        # the 'minimal' base is loaded through a legal but not normalised spelling of its path (the path is part of the sample)
+        pth = base_path(base)
+        if base == 'minimal':
+            pth = os.path.join(os.path.dirname(pth), '.', '', os.path.basename(pth)).replace(os.sep + os.path.basename(pth), os.sep + '.' + os.sep + os.path.basename(pth))
+        d = FlowCal.io.FCSData(pth)
     O = ops()
     for h in hist:
         with warnings.catch_warnings():
@@ -182,6 +186,17 @@ def check_clones(res, base, hist, one_base):
         a, b = (meta_only(g0), meta_only(g1)) if how == 'view' else (g0, g1)
         if a != b:
             res.violation('original-aliases-clone:%s' % how, 'changing the original changed its %s: %s' % (what, diff(a, b)), one)
+            continue
+        # a second clone taken after the first one was changed still equals the original (nothing of the first is remembered)
+        d3 = build(base, hist)
+        h0 = fp(d3)
+        c3 = clone(d3, how)
+        mutate(c3)
+        c4 = clone(d3, how)
+        h4 = fp(c4)
+        a, b = (meta_only(h0), meta_only(h4)) if how == 'view' else (h0, h4)
+        if a != b:
+            res.violation('second-clone-differs:%s' % how, 'a second %s, taken after the first one was changed, differs from the original: %s' % (what, diff(b, a)), one)
             continue
         res.ok('clone:' + ('view' if how == 'view' else 'pickle' if how.startswith('pickle') else 'copy'), True)
     return n
